@@ -9,7 +9,7 @@ from gen import sctelib as L
 from gen.sctelib import fmt_val
 
 PROP = "C09"
-PROOF_FILES = ["Properties/C09.v"]
+PROOF_FILES = ["Properties/C09.v", "Properties/C13tie.v"]
 RULE = ("a case is non-trivial when it is a distinct setter history or a distinct canonical section inside the property's "
         "hypotheses (field values representable: section_length < 1024, lengths < 256); 'clean' histories set only fields "
         "that are on the wire (round trip decode(encode) = getters is checked on the real code as an oracle), 'toggle' "
@@ -135,7 +135,9 @@ def wild_cmdop(rng):
 
 
 def wild_descop(rng):
-    k = rng.randrange(22)
+    k = rng.randrange(23)
+    if k == 22:
+        return K(22, rng.randrange(3), [rng.randrange(2), rng.choice([0, 255, 1 << 32, (1 << 33) + 1, rng.randrange(1 << 64)])])
     if k in (2, 3, 11, 12, 13, 14, 15, 19):
         return K(k, rng.randrange(2))
     if k == 6:
@@ -233,7 +235,61 @@ def api_buildable(s):
     c = s[12]
     if c[0] == 2 and c[2] and c[2][0][1][0] in (2, 3) and len(c[2][0][1][1]) > 0:
         return False
-    return all(d[0] == 0 for d in s[13]) and s[5] == 0 and s[7] == 0 and s[9] == 0
+    return all(d[0] == 0 for d in s[13]) and s[5] == 0 and s[7] == 0 and s[9] == 0 and s[2] == 0 and s[3] == 0
+
+
+BIG = [(1 << 33) + 5, (1 << 33), (1 << 40) + 7, (1 << 64) - 1, (1 << 63) + 12345, 0x1FFFFFFFF + 2]
+
+
+def overwide_history(rng):
+    """clean histories whose value setters get over-wide arguments (truncated by the setters since 0b05886):
+    spliceInsert.SetDuration, SetAdjustPTS, componentOffset.SetPTSOffset, SetDeviceRestrictions, and the ones that always
+    truncated (SetTier, descriptor SetDuration, command SetPTS); flags are set so that the value is on the wire"""
+    big = lambda: rng.choice(BIG + [rng.randrange(1 << 33, 1 << 64)])
+    cops = [K(2, rng.randrange(1 << 32)), K(0, 1), K(1, big()), K(5, 1), K(6, big()), K(7, rng.randrange(2)),
+            K(8, rng.randrange(65536)), K(9, rng.randrange(256)), K(10, rng.randrange(256))]
+    d = [K(0, rng.randrange(1 << 32)), K(11, 0), K(18, [[rng.randrange(256), big()] for _ in range(rng.randrange(1, 3))]),
+         K(3, 1), K(4, big()), K(13, 1), K(16, rng.choice([4, 5, 6, 7, 255, 131])), K(1, 0x30), K(7, 1), K(8, 2)]
+    if rng.random() < 0.5:
+        d.append(K(22, 0, [1, big()]))          # Components()[0].SetPTSOffset on the fresh descriptor
+        d.append(K(22, 0, [0, rng.randrange(256)]))
+    ops = [K(5, [2, cops]), K(1, big()), K(0, rng.choice([4096, 0xFFFF, 0x1ABC])), K(6, [d])]
+    if rng.random() < 0.5:
+        ops.append(K(8, K(6, big())))           # CommandInfo().SetDuration again
+    if rng.random() < 0.5:
+        ops.append(K(9, 0, K(22, 0, [1, big()])))   # Descriptors()[0].Components()[0].SetPTSOffset
+        ops.append(K(9, 0, K(16, rng.choice([7, 6, 255]))))
+    return ops
+
+
+def component_ops(rng, s):
+    """setter calls reached through Components()[j] / MID()[j] of the objects of a DECODED section s"""
+    ops = []
+    big = lambda: rng.choice(BIG + [rng.randrange(1 << 33), rng.randrange(1 << 64)])
+    c = s[12]
+    if c[0] == 2 and c[2] and c[2][0][1][0] in (2, 3):
+        n = len(c[2][0][1][1])
+        for _ in range(rng.randrange(1, 4)):
+            j = rng.randrange(n + 1)
+            k = rng.randrange(3)
+            ops.append(K(8, K(13, j, K(k, rng.randrange(256) if k == 0 else rng.randrange(2) if k == 1 else big()))))
+    segs = [d for d in s[13] if d[0] == 0]
+    for i, d in enumerate(segs):
+        if not d[2]:
+            continue
+        comps, dur, restr, upid = d[2][0][0], d[2][0][1], d[2][0][2], d[2][0][3]
+        if comps:
+            for _ in range(rng.randrange(1, 3)):
+                j = rng.randrange(len(comps[0]) + 1)
+                ops.append(K(9, i, K(22, j, [0, rng.randrange(256)] if rng.random() < 0.4 else [1, big()])))
+        if upid[0] == 1:
+            for _ in range(rng.randrange(1, 3)):
+                j = rng.randrange(len(upid[1]) + 1)
+                ops.append(K(9, i, K(21, j, rng.randrange(256)) if rng.random() < 0.5 else K(20, j, L.g_bytes(rng, rng.choice([0, 1, 4, 9])))))
+        if restr and rng.random() < 0.5:
+            ops.append(K(9, i, K(16, rng.choice([4, 7, 255]))))
+    rng.shuffle(ops)
+    return ops
 
 
 def has_untimed(s):
@@ -302,6 +358,19 @@ def gen(rng, tier):
     for _ in range(400 * mult):
         out.append(Case("scte.build [ ] " + fmt_val(wild_history(rng)), kind="wild-history", decides=False, nontrivial=False,
                         theorem="ScteEnc.run_script / update_data vs the setter API"))
+    # (b') over-wide arguments of the truncating value setters: deciding cases with the round-trip oracle
+    for _ in range(200 * mult):
+        out.append(Case("scte.build [ ] " + fmt_val(overwide_history(rng)), kind="clean-history-overwide", theorem="C09_history_canonical"))
+    # (c') Components()[j] / MID()[j] setters on the objects of a decoded section
+    cand = [(sg, b) for sg, b in zip(sigs, data)]
+    rng.shuffle(cand)
+    nco = 0
+    for sg, b in cand:
+        ops = component_ops(rng, sg)
+        if ops and nco < 250 * mult:
+            nco += 1
+            out.append(Case("scte.build [ %s ] %s" % (hx(b), fmt_val(ops)), kind="component-setters-decoded",
+                            theorem="C09_insert_component_law / C09_desc_component_law / C09_mid_settype"))
     # (c) histories from a decoded section
     base = [(s, b) for s, b in zip(sigs, data)]
     rng.shuffle(base)
@@ -319,7 +388,7 @@ def gen(rng, tier):
     for i, r in zip(idx, rep):
         c = out[i]
         nrm = (r == "1")
-        if c.kind == "clean-history" and not nrm:
+        if c.kind in ("clean-history", "clean-history-overwide") and not nrm:
             raise RuntimeError("a clean history is not normal: " + c.line[:300])
         c.decides = nrm
         c.nontrivial = nrm
@@ -353,16 +422,16 @@ def own_tail(rng, nd, nmid):
                 sel = sel[:rng.randrange(1, nmid + 1)]
             if rng.random() < 0.4:
                 sel.insert(rng.choice([0, len(sel)]), [rng.choice([1, 8, 9]), L.g_bytes(rng, rng.choice([1, 4]))])
-            t.append(K(9, 0, K(22, sel)))
+            t.append(K(9, 0, K(32, sel)))
             nmid = len(sel)
         elif k == 1 and nd and nmid:      # write through one MID entry, then hand the same entries back
             t.append(K(9, 0, K(20, rng.randrange(nmid), L.g_bytes(rng, rng.choice([0, 1, 5])))))
-            t.append(K(9, 0, K(22, list(reversed(range(nmid))))))
+            t.append(K(9, 0, K(32, list(reversed(range(nmid))))))
         elif k == 2 and nd:               # SetComponents(own Components()) after setting some
             i = rng.randrange(nd)
             cs = [[rng.randrange(256), rng.choice(L.PTS_EDGE + [rng.randrange(L.T33)])] for _ in range(rng.randrange(1, 4))]
             sel = list(range(len(cs))); rng.shuffle(sel)
-            t += [K(9, i, K(11, 0)), K(9, i, K(18, cs)), K(9, i, K(23, sel))]
+            t += [K(9, i, K(11, 0)), K(9, i, K(18, cs)), K(9, i, K(33, sel))]
         elif k == 3 and nd > 1:           # SetDescriptors(own Descriptors() reordered / one dropped)
             sel = list(range(nd)); rng.shuffle(sel)
             if rng.random() < 0.3:
@@ -377,7 +446,7 @@ def own_tail(rng, nd, nmid):
             i = rng.randrange(nd)
             if i == 0:
                 nmid = 0
-            t += [K(9, i, K(5, 8)), K(9, i, K(6, L.g_bytes(rng, 8))), K(9, i, K(24)), K(7), K(9, i, K(6, L.g_bytes(rng, 3))), K(9, i, K(24))]
+            t += [K(9, i, K(5, 8)), K(9, i, K(6, L.g_bytes(rng, 8))), K(9, i, K(34)), K(7), K(9, i, K(6, L.g_bytes(rng, 3))), K(9, i, K(34))]
         elif k == 6:                      # times between modifiers: PTS() is read after each
             p = L.g_pts(rng)
             t += [K(1, p), K(2, (p + rng.choice([0, 1, 90000])) % L.T33), K(1, L.g_pts(rng))]
@@ -453,7 +522,7 @@ def oracle(c, real, model):
                 want = L.py_ser(sg)[1 + len(sg[0]):]
                 if r[1][0] != want:
                     return "the setter history of a canonical section does not encode to that section"
-        elif c.kind == "clean-history":
+        elif c.kind in ("clean-history", "clean-history-overwide"):
             r = parse_val(real)
             if r[0] != 0:
                 return None
@@ -487,10 +556,10 @@ LEVEL_TEXT = ("Proof: Properties/C09.v states over a Gallina model of the setter
               "sections, comparing bytes, all getters and Data() before/after.")
 LEVEL_NOTE = "Trusted: as C08, plus the by-value rendering of the pointer-based setter API (Model/ScteEnc.v)."
 TECHNIQUE = "Coq proof (encoder = serialiser, parser inverts serialiser, fold_left invariants) + model/implementation correspondence on setter histories"
-PARTIAL = ("refuted on the code as it is (witnesses in Properties/C09.v, replayed as known findings): 0x7E for an untimed splice_time, "
-           "stale upidLen after MID()[j].SetUPID, pts_adjustment of splice_null dropped by the decoder; limits in `normal`: section_length "
-           "< 1024, no stuffing for byte identity; CRC stated against the transliterated ComputeCRC (C13 identifies it with CRC-32/MPEG-2); "
-           "Data() aliasing is only observed in goexec")
+PARTIAL = ("residual finding, refuted with a witness in Properties/C09.v: SCTE35.SetPTS keeps an over-wide argument in PTS() "
+           "(C09_set_pts_overwide_refuted; typed_sig_op bounds that argument); limits stated in the theorems: `fits` (8-bit counts and "
+           "lengths, section_length < 1024), no stuffing for byte identity; CRC stated against the transliterated ComputeCRC "
+           "(Properties/C13tie.v identifies it with CRC-32/MPEG-2); Data() aliasing is only observed in goexec")
 
 
 def shrink(c):
@@ -502,7 +571,7 @@ def shrink(c):
     start, ops = v[0], v[1]
     # a shrunk clean history need not be clean any more (a value may be left beside a cleared flag), so the round-trip
     # oracle of kind clean-history must not be applied to it: shrunk candidates are judged by real = model only
-    kind = c.kind + "-shrunk" if c.kind in ("clean-history", "build-canonical") else c.kind
+    kind = c.kind + "-shrunk" if c.kind in ("clean-history", "clean-history-overwide", "build-canonical") else c.kind
     def emit(ops2):
         return Case("scte.build %s %s" % (fmt_val(start), fmt_val(ops2)), kind=kind, decides=c.decides, theorem=c.theorem)
     for i in range(len(ops)):
